@@ -147,6 +147,14 @@ def check_case(case):
                 bn = _names(case["B"]["shape"][0], case["B"]["named"])
                 bb = np.array([bvals[bn.index(n)] for n in an], dtype=float)
             want = _np_elementwise(case["op"], a, bb)
+        elif form == "nested":
+            # A op (B op2 A)  /  (A op2 B) op A  /  S op (A op2 B): a compound arrayed expression as operand
+            if case["side"] == "right":
+                want = _np_elementwise(case["op"], a, _np_elementwise(case["op2"], b, a))
+            elif case["side"] == "left":
+                want = _np_elementwise(case["op"], _np_elementwise(case["op2"], a, b), a)
+            else:
+                want = _np_elementwise(case["op"], 2.5, _np_elementwise(case["op2"], a, b))
         elif form == "scalar-right":
             want = _np_elementwise(case["op"], a, b)
         elif form == "scalar-left":
@@ -184,6 +192,16 @@ def check_case(case):
         op = case.get("op")
         if form == "elem" or form == "scalar-right":
             eq = {"+": lambda: A + B, "-": lambda: A - B, "*": lambda: A * B, "/": lambda: A / B}[op]()
+        elif form == "nested":
+            f = {"+": lambda x, y: x + y, "-": lambda x, y: x - y, "*": lambda x, y: x * y, "/": lambda x, y: x / y}
+            if case["side"] == "right":
+                eq = f[op](A, f[case["op2"]](B, A))
+            elif case["side"] == "left":
+                eq = f[op](f[case["op2"]](A, B), A)
+            else:
+                S = model.converter("S")
+                S.equation = 2.5
+                eq = f[op](S, f[case["op2"]](A, B))
         elif form == "scalar-left":
             eq = {"+": lambda: B + A, "-": lambda: B - A, "*": lambda: B * A, "/": lambda: B / A}[op]()
         elif form in ("agg-right", "agg-left"):
@@ -209,7 +227,8 @@ def check_case(case):
         info["outcome"] = "rejected:" + type(e).__name__
         return info, vs
     info["outcome"] = "accepted"
-    sig_form = form + (":" + case["op"] if op else "") + (":" + case["agg"] if form in ("agg", "agg-right", "agg-left") else "") + \
+    sig_form = form + (":" + case["op"] if op else "") + (":" + case["side"] + ":" + case["op2"] if form == "nested" else "") + \
+        (":" + case["agg"] if form in ("agg", "agg-right", "agg-left") else "") + \
         (":" + _dotkind(case) if form == "dot" else "")
     if mismatch:
         vs.append(Violation("mismatch-accepted:" + sig_form + ":" + case["mismatch"],
@@ -296,6 +315,10 @@ def combos(tier):
                         if ssh != sh and len(ssh) == len(sh) and (ka, kb) == kinds_pairs[0]:
                             out.append({"form": "elem", "op": op, "A": dict(A), "B": {"kind": kb, "shape": ssh, "named": named},
                                         "mismatch": "shape"})
+                    if named is None and (ka, kb) in kinds_pairs[:3]:
+                        for op2 in OPS:
+                            for side in ("right", "left", "scalar"):
+                                out.append({"form": "nested", "op": op, "op2": op2, "side": side, "A": dict(A), "B": {"kind": kb, "shape": sh, "named": named}})
                     for sas in ("number", "element"):
                         out.append({"form": "scalar-right", "op": op, "A": dict(A), "B": {"scalar": 2.0, "as": sas}})
                         out.append({"form": "scalar-left", "op": op, "A": dict(A), "B": {"scalar": 3.0, "as": sas}})
@@ -369,7 +392,7 @@ def random_strategy():
 
     @st.composite
     def build(draw):
-        form = draw(st.sampled_from(["elem", "scalar-right", "scalar-left", "dot", "agg", "agg-right", "agg-left"]))
+        form = draw(st.sampled_from(["elem", "scalar-right", "scalar-left", "dot", "agg", "agg-right", "agg-left", "nested"]))
         m, n = draw(st.integers(1, 4)), draw(st.integers(1, 4))
         vec = draw(st.booleans())
         sh = [draw(st.integers(1, 5))] if vec else [m, n]
@@ -382,7 +405,12 @@ def random_strategy():
         named = draw(st.sampled_from([None, None, "same"])) if form != "dot" else None
         A = {"kind": draw(st.sampled_from(KINDS)), "shape": sh, "named": named}
         case = {"form": form, "A": A}
-        if form == "elem":
+        if form == "nested":
+            case["op"], case["op2"], case["side"] = draw(st.sampled_from(OPS)), draw(st.sampled_from(OPS)), draw(st.sampled_from(["right", "left", "scalar"]))
+            A["named"] = None
+            case["B"] = {"kind": draw(st.sampled_from(KINDS)), "shape": sh, "named": None, "values": vals(sh, True)}
+            A["values"] = vals(sh, True)
+        elif form == "elem":
             case["op"] = draw(st.sampled_from(OPS))
             case["B"] = {"kind": draw(st.sampled_from(KINDS)), "shape": sh, "named": named, "values": vals(sh, case["op"] == "/")}
             A["values"] = vals(sh)
